@@ -1276,6 +1276,27 @@ func c15Stream(o *Out, rng *rand.Rand, n int) {
 	}
 	// fixed rotation stories
 	c15Exec(o, "rotation-fixed", c15RotationStory(ring))
+	// a LARGE key set (hundreds of kids): every one of them selects its own key, first, middle and last alike
+	{
+		now := time.Now()
+		in := &c15In{T: "hist", Iss: "https://issuer.example/", Aud: "tracker", Pub: ring.pub}
+		ih := bytes.Repeat([]byte{0xc6}, 20)
+		var ents []c15KV
+		for i := 0; i < 300; i++ {
+			ents = append(ents, c15KV{fmt.Sprintf("kid-%03d", i), i % c15NRSA})
+		}
+		tok := func(i, key int) c15Op {
+			hdr := map[string]interface{}{"alg": "RS256", "typ": "JWT", "kid": fmt.Sprintf("kid-%03d", i)}
+			cl := map[string]interface{}{"iss": in.Iss, "aud": in.Aud, "infohash": hex.EncodeToString(ih),
+				"exp": now.Add(4 * time.Hour).Unix(), "nbf": now.Add(-4 * time.Hour).Unix()}
+			t := c15Build(ring, hdr, cl, "RS256", key)
+			return c15Op{Op: "announce", IH: hx(ih), JWT: &t}
+		}
+		in.Ops = []c15Op{c15RefreshOp(ring.pub, ents, -1), tok(0, 0), tok(1, 1), tok(149, 149 % c15NRSA), tok(255, 255 % c15NRSA), tok(256, 256 % c15NRSA),
+			tok(299, 299 % c15NRSA), tok(299, (299+1)%c15NRSA), tok(300, 0),
+			c15RefreshOp(ring.pub, ents[:257], -1), tok(256, 256 % c15NRSA), tok(257, 257 % c15NRSA)}
+		c15Exec(o, "large-key-set", in)
+	}
 	// 2. refresh || validation under the race detector
 	c15RunChild(o, "concurrent")
 	// 2b. announces while a fetch of the JWK set is in flight and the issuer rotates (c15o.go)
